@@ -86,6 +86,8 @@ class Materializer:
 
     def mat(self, v):
         v = simplify_native(v)
+        if hasattr(v, "materialize"):
+            return v.materialize()
         if isinstance(v, Rope):
             return v.native()
         if isinstance(v, Ref):
